@@ -235,10 +235,20 @@ def tgOutVerts (t : Tables) (m : Mapping) (key : String) (labels : List String) 
 def tgInVerts (t : Tables) (m : Mapping) (key : String) (labels : List String) : List Elem :=
   (tgInEdges t m key labels).flatMap (fun e => tgVertexChan t m e.frm)
 
-/-- ParseEdge: exactly three `-`-separated parts (source, label, destination). -/
+/-- `strings.Split(gid, "-")` on characters. -/
+def splitDash : List Char → List (List Char)
+  | [] => [[]]
+  | c :: cs =>
+    match splitDash cs with
+    | [] => [[c]]
+    | p :: ps => if c == '-' then [] :: p :: ps else (c :: p) :: ps
+
+/-- ParseEdge: exactly three `-`-separated parts (source, label, destination).  An id whose
+    source, label or destination part itself contains `-` is "incorrectly formatted" and finds
+    nothing (open finding C15-edge-id-dash). -/
 def parseEdge (gid : String) : Option (String × String × String) :=
-  match gid.splitOn "-" with
-  | [a, b, c] => some (a, c, b)
+  match splitDash gid.toList with
+  | [a, b, c] => some (String.ofList a, String.ofList c, String.ofList b)
   | _ => none
 
 /-- GetEdge: the first outbound source with that label and matching prefixes that has a matching
